@@ -387,10 +387,7 @@ def judgeState (s : St) (es : List Ent) (a : Ans) : String :=
       if !hasPar then firstFail [("values_strict_mono", valuesStrictMono d)] else
       firstFail (
         [("search_parent_quantile_sentinel", !sentinel),
-         -- the equal-interval scheme assigns `distribution_[value] = mass` without looking for an
-         -- equivalent key: it needs classes wider than the comparator precision (theorem hypothesis)
-         ("n_classes", nClassesOk d || !(eqB || eqIntResolved f.dd)),
-         ("n_classes_equal_interval", nClassesOk d || eqB || eqIntResolved f.dd),
+         ("n_classes", nClassesOk d),
          ("probs_sum_one", probsSumOne 1e-9 d || !(eqB || wc)),
          ("values_strict_mono", valuesStrictMono d),
          ("probs_nonneg", probsNonneg d || !(eqB || wc)),
